@@ -66,12 +66,22 @@ func tryParseInt(s []byte) (int64, string) {
 // Unlike with parseInt, there are a lot more edge cases for floats so this
 // just eats the overhead of copying to string and calling the standard library,
 // except in a few common cases.
+//
+// Panics on invalid input, since the tokenizer is supposed to guarantee
+// valid input.
 func parseFloat(s []byte) float64 {
-	f, err := strconv.ParseFloat(string(s), 64)
+	f, err := tryParseFloat(s)
 	if err != nil {
 		panic(err)
 	}
 	return f
+}
+
+// tryParseFloat parses bytes as a 64-bit float.
+//
+// Returns an error if s is not a float literal or its value is out of range.
+func tryParseFloat(s []byte) (float64, error) {
+	return strconv.ParseFloat(string(s), 64)
 }
 
 // parseFloat parses bytes as a 32-bit float.
@@ -80,11 +90,19 @@ func parseFloat(s []byte) float64 {
 // just eats the overhead of copying to string and calling the standard library,
 // except in a few common cases.
 func parseFloat32(s []byte) float32 {
-	f, err := strconv.ParseFloat(string(s), 32)
+	f, err := tryParseFloat32(s)
 	if err != nil {
 		panic(err)
 	}
-	return float32(f)
+	return f
+}
+
+// tryParseFloat32 parses bytes as a 32-bit float.
+//
+// Returns an error if s is not a float literal or its value is out of range.
+func tryParseFloat32(s []byte) (float32, error) {
+	f, err := strconv.ParseFloat(string(s), 32)
+	return float32(f), err
 }
 
 // roundUpTo rounds a value away from zero to the nearest 1/granularity.
